@@ -272,15 +272,20 @@ def compare(ctx, rep, cases, tag="session"):
 
 
 def device_key_discipline(case, events, etimes):
-    """C07/C06, judged from the DEVICE's side: every data packet must be encrypted under the session key of the latest handshake
-    the device answered on that connection. Returns [(klass, detail)].
-    A mismatch is class 'late-handshake-reply-raced-next-handshake' when the accepted (older) reply ARRIVED after the later
-    handshake request had been written (it could not have been flushed; the protocol does not correlate replies with
-    requests), and 'stale-handshake-reply-not-flushed' when it was already waiting in the receive queue at that moment."""
+    """C07/C06, judged from the DEVICE's side: which handshake reply does the client accept for which handshake request?
+    For every accepted authentication (EvAuthOk) the request it answers is the last handshake request written on that
+    connection before it.  Accepting the reply the appliance produced for THAT request is the normal case.  Accepting an
+    older reply is
+      'stale-handshake-reply-not-flushed'           when that reply had ARRIVED before the request was written (it was waiting
+                                                     in the receive queue and should have been discarded), and
+      'late-handshake-reply-raced-next-handshake'   when it arrived after the request was written (nothing could discard it:
+                                                     replies are not correlated with requests).
+    Either way client and appliance end up with different session keys.  Returns [(klass, detail)] (first finding only)."""
     hs_replies, data_replies = case[1], case[2]
-    out, k, j, kid = [], 0, 0, 0
-    latest, latest_write, arrival, unjudged = {}, {}, {}, set()
-    for e, t in zip(events, etimes):
+    k, j, kid = 0, 0, 0
+    arrival, produced, unjudged = {}, {}, set()       # produced: index of a handshake-write event -> kid of its genuine reply
+    last_hs = {}                                       # cid -> index of the last handshake write
+    for i, (e, t) in enumerate(zip(events, etimes)):
         if e[0] == 2:
             reply = hs_replies[k] if k < len(hs_replies) else []
             k += 1
@@ -288,25 +293,23 @@ def device_key_discipline(case, events, etimes):
                 if kind == 1:
                     kid += 1
                     arrival[kid] = t + delay / 1000.0
-                    if e[3] == 1:
-                        latest[e[1]] = kid
-                    else:
-                        unjudged.add(e[1])       # a genuine reply to a handshake with the WRONG token: not a real appliance
-            if e[3] == 1:
-                latest_write[e[1]] = t
+                    produced[i] = kid
+                    if e[3] != 1:
+                        unjudged.add(e[1])            # a genuine reply to a handshake with the WRONG token: not a real appliance
+            last_hs[e[1]] = i
         elif e[0] in (3, 9):
             reply = data_replies[j] if j < len(data_replies) else []
             j += 1
-            for delay, kind, _f in reply:
-                if kind == 1:                     # a handshake reply in answer to DATA: not a real appliance either
-                    kid += 1
-                    unjudged.add(e[1])
-            if e[0] == 3 and len(e) >= 5 and e[1] in latest and e[1] not in unjudged and e[3] not in (0, latest[e[1]]):
-                used = e[3]
-                raced = arrival.get(used, -1) >= latest_write.get(e[1], 0) - 1e-6
-                out.append(("late-handshake-reply-raced-next-handshake" if raced else "stale-handshake-reply-not-flushed",
-                            {"event": e, "time": round(t, 3), "device_latest_key": latest[e[1]], "key_used": used,
-                             "reply_arrived": round(arrival.get(used, -1), 3),
-                             "latest_handshake_written": round(latest_write.get(e[1], 0), 3)}))
-                break
-    return out
+            if any(kind == 1 for _d, kind, _f in reply):
+                kid += sum(1 for _d, kind, _f in reply if kind == 1)
+                unjudged.add(e[1])                    # a handshake reply in answer to DATA: not a real appliance either
+        elif e[0] == 4 and e[1] in last_hs and e[1] not in unjudged and e[2] > 0:
+            req = last_hs[e[1]]
+            if produced.get(req) == e[2]:
+                continue
+            w = etimes[req]
+            raced = arrival.get(e[2], -1) >= w - 1e-6
+            return [("late-handshake-reply-raced-next-handshake" if raced else "stale-handshake-reply-not-flushed",
+                     {"accepted_key": e[2], "connection": e[1], "request_written": round(w, 3), "key_that_request_produced": produced.get(req),
+                      "accepted_reply_arrived": round(arrival.get(e[2], -1), 3), "events": events})]
+    return []
